@@ -27,6 +27,16 @@ CHECKS = {
         "note": "Trusted: ast, the analyser. GETBULK bound is C02-R2, ids C07, error-status C08. Not decided: equality of returned values with the agent database.",
         "technique": "CFG simulation over count orderings + container-kind dataflow + callee length summaries + kind typing of isinstance operands (static)",
     },
+    "C05": {
+        "text": "The shape (kinds, order, arity, provenance of every leaf) of every encoder reachable from the sender seam - PDU body, GETBULK framing, community wrapper, SNMPv3 message / header / flags / scoped PDU / USM parameters - is extracted from the source and compared with tables transcribed from RFC 1157/1901/3416/3412/3414; the flag octet is evaluated for all 8 combinations.",
+        "note": "Trusted: ast, the analyser, the RFC tables. Not decided: x690's primitive encodings (integers, OIDs with large sub-identifiers, lengths) over their full ranges - numeric, delegated to x690.",
+        "technique": "BER shape extraction with provenance + RFC table comparison + constant folding (static)",
+    },
+    "C06": {
+        "text": "Registration table of all SNMP types (class / tag / nature / signedness through the MRO, registry key collisions), unconditional import chain that triggers registration, and index/mask -> field maps of every decoder compared with the sibling encoder and the RFC tables (shape-level round trip).",
+        "note": "Trusted: ast, the analyser, RFC tables. Not decided: value-level decoding over full ranges and all definite length forms (arithmetic inside x690).",
+        "technique": "class-table evaluation + decoder index-map extraction + sibling encoder/decoder agreement (static)",
+    },
     "C07": {
         "category": "proof",
         "text": "All five structural clauses that make up the mechanism (one clock read per request, unavoidable exact id validation in every function that talks to the network, community/version refusal, discovery id check) are decided on every path of the functions involved; acceptance for every clock schedule follows because the id placed in the PDU and the id validated are one value.",
